@@ -34,6 +34,10 @@ def tok(t: str, s: str = '', n: int = 0, cs: T.Sequence[int] = ()) -> T.Dict[str
     return {'t': t, 's': s, 'n': n, 'cs': list(cs)}
 
 
+def ident(name: str) -> T.Dict[str, T.Any]:
+    return tok('id', s=name, cs=[ord(c) for c in name])
+
+
 def token_text(tk: T.Dict[str, T.Any], rnd: T.Optional[random.Random] = None) -> str:
     t = tk['t']
     if t == 'id':
@@ -116,11 +120,11 @@ def project_ast(x: T.Any, mp: T.Any) -> T.List[T.Any]:
         d = [P(x.elseblock.block)] if isinstance(x.elseblock, mp.ElseNode) else []
         return node('if', c=c, d=d)
     if isinstance(x, mp.ForeachClauseNode):
-        return node('foreach', c=[P(x.items), P(x.block)], d=[node('id', v=i.value) for i in x.varnames])
+        return node('foreach', c=[P(x.items), P(x.block)], d=[node('id', v=i.value, cs=[ord(ch) for ch in i.value]) for i in x.varnames])
     if isinstance(x, mp.PlusAssignmentNode):
-        return node('plusassign', v=x.var_name.value, c=[P(x.value)])
+        return node('plusassign', v=x.var_name.value, cs=[ord(ch) for ch in x.var_name.value], c=[P(x.value)])
     if isinstance(x, mp.AssignmentNode):
-        return node('assign', v=x.var_name.value, c=[P(x.value)])
+        return node('assign', v=x.var_name.value, cs=[ord(ch) for ch in x.var_name.value], c=[P(x.value)])
     if isinstance(x, mp.TernaryNode):
         return node('ternary', c=[P(x.condition), P(x.trueblock), P(x.falseblock)])
     if isinstance(x, mp.OrNode):
@@ -154,7 +158,7 @@ def project_ast(x: T.Any, mp: T.Any) -> T.List[T.Any]:
     if isinstance(x, mp.EmptyNode):
         return node('empty')
     if isinstance(x, mp.IdNode):
-        return node('id', v=x.value)
+        return node('id', v=x.value, cs=[ord(ch) for ch in x.value])
     if isinstance(x, mp.NumberNode):
         return node('num', n=clamp(x.value))
     if isinstance(x, mp.StringNode):
@@ -290,7 +294,7 @@ def lex_real(text: str, mp: T.Any) -> T.Tuple[T.List[T.Dict[str, T.Any]], T.List
         if tid == 'comment':
             continue
         if tid == 'id':
-            toks.append(tok('id', s=tkn.value))
+            toks.append(tok('id', s=tkn.value, cs=[ord(ch) for ch in tkn.value]))
         elif tid == 'number':
             toks.append(tok('number', n=clamp(int(tkn.value, base=0))))
         elif tid in ('string', 'fstring', 'multiline_string', 'multiline_fstring'):
